@@ -1,4 +1,44 @@
-import ErgoModel.Exec
+/-
+  C10 — A command that fails changes nothing.
+-/
+import ErgoProofs.Lemmas.ReachInv
 namespace Ergo
-theorem C10_placeholder : True := trivial
+
+/-- whenever a command exits non-zero — validation error, unknown or pruned id, illegal transition, missing claim,
+    would-be cycle, bad result path, conflicting flags, lock busy — the log is exactly what it was: every command is
+    validate-then-write inside one lock section, so a failed `new` creates nothing, a failed `set` applies none of its
+    fields and a failed `sequence A B C` adds none of its edges -/
+theorem C10_failure_changes_nothing (log : List Event) (env : Env) (req : Request) (e : CmdErr)
+    (h : (runCmd log env req).err = some e) : (runCmd log env req).log = log ∧ (runCmd log env req).write = none :=
+  runCmd_err_unchanged log env req e h
+
+/-- a section that decides "error" issues no write at all (there is nothing to roll back) -/
+theorem C10_section_error_no_write (log : List Event) (env : Env) (sec : Sec) (e : CmdErr)
+    (h : runSec log env sec = .error e) : ∀ w o, runSec log env sec ≠ .ok (w, o) := by
+  intro w o h'; rw [h] at h'; cases h'
+
+/-- a `sequence` chain is all-or-nothing: if any edge is refused no event is produced for any of them -/
+theorem C10_sequence_all_or_nothing (g : Graph) (unlink : Bool) (edges : List (Id × Id)) (e : CmdErr)
+    (h : linkEvents g unlink edges = .error e) : secLinks g unlink edges = .error e := by
+  simp [secLinks, h, Except.map]
+
+/-- `new task` with state/claim/result: a refused follow-up update means the create event is not written either -/
+theorem C10_create_all_or_nothing (g : Graph) (isEpic : Bool) (epicId title body : String) (follow : SetReq) (ids : List Id)
+    (uuid agent : String) (po : PathOutcome) (now : Time) (id : Id) (e : CmdErr) (hf : follow.isEmpty = false)
+    (hpick : pickId g.taken ids = some (id, []) ∨ ∃ rest, pickId g.taken ids = some (id, rest))
+    (hepic : isEpic = true ∨ epicId = "")
+    (hupd : updateEvents g (freshTask isEpic id uuid (if isEpic then "" else epicId) title body now) follow agent po now = .error e) :
+    secCreate g isEpic epicId title body follow ids uuid agent po now = .error e := by
+  have hp : ∃ rest, pickId g.taken ids = some (id, rest) := by
+    rcases hpick with h | h; exact ⟨[], h⟩; exact h
+  obtain ⟨rest, hp⟩ := hp
+  unfold secCreate
+  simp only [bind, Except.bind, pure, Except.pure]
+  have hc : (!isEpic && epicId != "") = false := by
+    rcases hepic with h | h <;> simp [h]
+  simp [hc, hp, hf, hupd]
+
+/-- non-vacuity: a failing command exists (an illegal transition) -/
+example : (runCmd [] { agent := "a" } (.claim "ZZZZZZ")).err = some (.unknownTask "ZZZZZZ") := by decide
+
 end Ergo
